@@ -944,6 +944,17 @@ package gorm
 //@   min-sites 2
 //@   assert record-had-no-returning-value: defined(isArrayKind) && update && onConflictDonothing ==> checkedUnset == 1 [C03]
 
+//@ # ---------- C18: handles derived inside the library keep the caller's context ----------
+//@ # Preloads, association saves, batches, savepoints, migrator probes: every Session(...) the library itself makes
+//@ # either leaves the context alone or passes the one of the handle it derives from (only WithContext, the user's
+//@ # own request, installs another one).
+//@ site derived-sessions-keep-the-callers-context
+//@   match call gorm.(*DB).Session
+//@   in callbacks.* gorm.(*Association).* gorm.(*DB).* migrator.(Migrator).*
+//@   not-in gorm.(*DB).WithContext
+//@   min-sites 10
+//@   assert no-foreign-context: arg1.Context == nil || arg1.Context == arg0.Statement.Context [C18]
+
 //@ # ---------- C18/C04: a nested block is set up and undone on the caller's handle ----------
 //@ # SAVEPOINT and ROLLBACK TO SAVEPOINT of a nested Transaction carry the same context (and run on the same
 //@ # connection) as the statements of the block: they are issued through the receiver itself.
